@@ -287,6 +287,20 @@ pub fn template_scan(ctx: &Ctx, rng: &mut Rng, o: &mut Out) {
 // ---------------------------------------------------------------------------------------
 // property oracles (reference semantics written from the documentation, not from the code)
 
+/// the meta variables of a pattern tree, in document order
+fn vars_of(p: &ast_grep_core::matcher::PatternNode) -> Vec<Value> {
+  fn go(p: &ast_grep_core::matcher::PatternNode, out: &mut Vec<Value>) {
+    match p {
+      ast_grep_core::matcher::PatternNode::MetaVar { meta_var } => out.push(mv_json(&Some(meta_var.clone()))),
+      ast_grep_core::matcher::PatternNode::Terminal { .. } => {}
+      ast_grep_core::matcher::PatternNode::Internal { children, .. } => children.iter().for_each(|c| go(c, out)),
+    }
+  }
+  let mut out = vec![];
+  go(p, &mut out);
+  out
+}
+
 /// the documented meaning of a `$`-spelling, independent of any language
 fn spec_spelling(s: &str) -> Value {
   let valid = |c: char| c.is_ascii_uppercase() || c.is_ascii_digit() || c == '_';
@@ -418,6 +432,58 @@ pub fn oracle(ctx: &Ctx, rng: &mut Rng, o: &mut Out) {
       }
     }
     o.oracle("spelling-entry-points", true, json!({"lang": l.to_string(), "cases": entry_cases}));
+    // the same spellings IN CONTEXT: inside real code of the language, next to sibling nodes (`echo
+    // $$$ARGS`, `foo($A, 1)`): wherever the (pre-processed) spelling is the whole text of one node of
+    // the parsed pattern text — judged on a plain parse, nothing of the pattern machinery enters the
+    // guard — the pattern has the documented meta variable there
+    let mut ctx_cases = 0usize;
+    'src: for srcf in crate::corpus::load().iter().filter(|sf| sf.lang == *l) {
+      let g0 = l.ast_grep(&srcf.text);
+      let cands: Vec<_> = g0
+        .root()
+        .dfs()
+        .filter(|n| {
+          n.is_named() && n.children().len() == 0 && n.range().len() > 0 && !n.text().contains('$') && n.parent().map_or(false, |p| {
+            let t = p.text();
+            t.len() <= 100 && !t.contains('\n') && !t.contains('$') && !t.contains(e) && p.children().filter(|c| c.is_named()).count() >= 2 && !p.dfs().any(|d| d.is_error())
+          })
+        })
+        .collect();
+      for n in cands.iter().step_by((cands.len() / 6).max(1)) {
+        let p = n.parent().unwrap();
+        let base = p.range().start;
+        let pt = p.text().to_string();
+        for sp in ["$A", "$$A", "$_", "$$_", "$$$", "$$$A", "$A1", "$$$_"] {
+          if sp.contains(e) && !(e == '_' && sp.starts_with('$')) {
+            continue;
+          }
+          let text = format!("{}{}{}", &pt[..n.range().start - base], sp, &pt[n.range().end - base..]);
+          let pre = l.pre_process_pattern(&text).to_string();
+          let psp = l.pre_process_pattern(sp).to_string();
+          let occ: Vec<usize> = pre.match_indices(&psp).map(|(i, _)| i).collect();
+          if occ.len() != 1 {
+            continue;
+          }
+          let (a, b) = (occ[0], occ[0] + psp.len());
+          let g = l.ast_grep(&pre);
+          if g.root().dfs().any(|d| d.is_error() || d.get_ts_node().is_missing()) || !g.root().dfs().any(|d| d.range().start == a && d.range().end == b) {
+            continue;
+          }
+          let Ok(pat) = Pattern::try_new(&text, *l) else { continue };
+          ctx_cases += 1;
+          let spec = spec_spelling(sp);
+          let got = vars_of(&pat.node);
+          if !got.contains(&spec) {
+            let kind = spec.get(0).and_then(|k| k.as_str()).unwrap_or("none").to_string();
+            o.oracle("spelling", false, json!({"fp": format!("spelling expando={e} spec={kind}"), "lang": l.to_string(), "s": sp, "expected": spec, "actual": got, "route": "Pattern::try_new, spelling next to sibling nodes", "pattern": text}));
+          }
+        }
+        if ctx_cases >= 60 {
+          break 'src;
+        }
+      }
+    }
+    o.oracle("spelling-in-context", true, json!({"lang": l.to_string(), "cases": ctx_cases}));
     // a plain string as REPLACER (`impl Replacer for str`: `replace_by`, `Node::replace`,
     // `AstGrep::replace` of the library): `$A` / `$$A` in it stand for the capture, other `$` text and
     // the language's internal sigil stay literal
